@@ -228,6 +228,22 @@ def nanoemoji_font(rng, fmt, v0_expressible=False, bitmaps=False, fit_cbdt=False
     return data, dict(format=fmt, config={k: str(v) for k, v in over.items()}, sources=[s[1] for s in srcs], codepoints=[list(s[2]) for s in srcs])
 
 
+def notdef_font(rng, fmt):
+    """a font with coloured art for .notdef (glyph 0), a blank space (glyph 1) and emoji from glyph 2 on - what upstream's
+    test_colr_to_svg_with_colored_notdef feeds maximum_color: the colour glyphs are two runs of glyph ids, so every
+    glyph-id-keyed structure of an added table (CBLC strikes, SVG documents) comes in more than one piece"""
+    H = '<svg xmlns="http://www.w3.org/2000/svg" viewBox="0 0 100 100">'
+    texts = [H + '<path d="M20,10 L80,10 L80,90 L20,90 Z M30,20 L30,80 L70,80 L70,20 Z" fill="#cc0000"/></svg>',
+             H + '<path d="M10,10 L50,10 L50,50 L10,50 Z" fill="#0000cc"/><path d="M50,50 L90,50 L70,90 Z" fill="#008800"/></svg>',
+             H + '<path d="M50,10 L90,90 L10,90 Z" fill="#aa00aa"/></svg>',
+             H + '<path d="M10,50 L50,10 L90,50 L50,95 Z" fill="#123456"/><path d="M40,40 L60,40 L60,60 L40,60 Z" fill="#ffcc00"/></svg>']
+    cps = [(), (0x1F600,), (0x1F601,), (0x1F602,)]
+    srcs = [(build.filename_for(c) if c else "notdef.svg", t, c) for t, c in zip(texts, cps)]
+    over = dict(color_format=fmt, upem=1000, ascender=800, descender=-200, width=1000, keep_glyph_names=rng.random() < 0.5, output_file="Font.ttf")
+    font, cfg, picos, data = build.build_inprocess(over, srcs)
+    return data, dict(format=fmt, config={k: str(v) for k, v in over.items()}, sources=texts, coloured_notdef=True, glyph_order=font.getGlyphOrder())
+
+
 def regrouped_font(rng, fmt):
     """the first and the third glyph share an outline, the second does not: the OT-SVG donor groups 1 and 3, so the
     target's glyph order has to change when the SVG table is donated (charstring fonts: F19)"""
@@ -471,7 +487,7 @@ def compare_stripped(kept, stripped_data):
 
 
 def run_e2e(report, n, rng, jobs=6):
-    kinds = ["glyf_colr_1", "picosvg", "third1", "glyf_colr_0", "untouchedsvg", "third0", "third_svg", "third_nospace", "cff_colr_1", "cff2_colr_1", "overhang_colr", "overhang_svg", "cff_colr_1_regrouped", "cff2_colr_1_regrouped"]
+    kinds = ["glyf_colr_1", "picosvg", "third1", "glyf_colr_0", "untouchedsvg", "third0", "third_svg", "third_nospace", "cff_colr_1", "cff2_colr_1", "overhang_colr", "overhang_svg", "cff_colr_1_regrouped", "cff2_colr_1_regrouped", "notdef_colr", "notdef_svg"]
     plans = []
     for i in range(n):
         kind = kinds[i % len(kinds)]
@@ -486,6 +502,9 @@ def run_e2e(report, n, rng, jobs=6):
             flags = [f_ for f_ in flags if f_ != "--bitmaps"]  # a bitmap is cut to the advance box by construction
         if kind.endswith("_regrouped"):
             flags = [f_ for f_ in flags if f_ != "--bitmaps"]
+        elif kind.startswith("notdef"):
+            # two runs of colour glyph ids: always with bitmaps (one CBLC strike per run)
+            flags = [f_ for f_ in flags if f_ != "--bitmaps"] + ["--bitmaps"]
         elif kind.startswith("cff"):
             # the first charstring font of each flavour always takes the bitmap path (F20), with metrics that fit CBDT;
             # the second never does, so that it cannot be rejected for a bitmap limit (F19 must show either way)
@@ -512,6 +531,8 @@ def run_e2e(report, n, rng, jobs=6):
                 data, info = regrouped_font(sub, kind[: -len("_regrouped")])
             elif kind.startswith("overhang"):
                 data, info = overhang_font(sub, "glyf_colr_1" if kind.endswith("colr") else "picosvg")
+            elif kind.startswith("notdef"):
+                data, info = notdef_font(sub, "glyf_colr_1" if kind.endswith("colr") else "picosvg")
             else:
                 data, info = nanoemoji_font(sub, kind, v0_expressible="0" in flags, bitmaps="--bitmaps" in flags, fit_cbdt=kind.startswith("cff"))
         except Exception as ex:
